@@ -352,12 +352,43 @@ func cmdCrash(args []string) int {
 		// a fixed history (not adaptive): advancing duties with some conflicts and batches
 		g := newGenState(fx, rng.Fork())
 		var ops []*Op
-		for len(ops) < killOps {
+		// the first history opens with the very first duties a validator can have - attestation 0->0 and the
+		// block of slot 0 - for an account nothing else in the history touches, and closes with the same
+		// duties over other data (to be refused in whichever life of the process they arrive)
+		reserved := fx.Accounts[0]
+		for _, a := range fx.Accounts {
+			if a.Usable && a.Signer {
+				reserved = a // the last usable account
+			}
+		}
+		genesis := func(root byte) []*Op {
+			return []*Op{
+				{Kind: KAttest, Client: "client1", IP: "10.0.0.1", Addrs: []Addr{{Name: reserved.Path()}},
+					Atts: []AttData{{Dom: mkDomain(domAttester, 0), BBR: fill32(root), Src: &Checkpoint{0, fill32(0)}, Tgt: &Checkpoint{0, fill32(root)}}}},
+				{Kind: KPropose, Client: "client1", IP: "10.0.0.1", Addrs: []Addr{{Name: reserved.Path()}},
+					Props: []PropData{{Dom: mkDomain(domProposer, 0), Slot: 0, Pidx: 1, Parent: fill32(0), State: fill32(root), Body: fill32(root)}}},
+			}
+		}
+		nGen := killOps
+		if kh == 0 {
+			ops = append(ops, genesis(1)...)
+			nGen = killOps - 2
+		}
+		for len(ops) < nGen {
 			op := g.genAdvancingOp()
 			if rng.Chance(25) {
 				op = g.genSlashingOp(25)
 			}
 			if op.Kind == KRestart {
+				continue
+			}
+			touchesReserved := false
+			for _, ad := range op.Addrs {
+				if a := (&Instance{fx: fx}).resolveInfo(ad); a != nil && a.ID == reserved.ID {
+					touchesReserved = true
+				}
+			}
+			if kh == 0 && touchesReserved {
 				continue
 			}
 			op.Client, op.IP = "client1", "10.0.0.1"
@@ -368,6 +399,9 @@ func cmdCrash(args []string) int {
 			}
 			g.noteSigned(op, fake, &Instance{fx: fx})
 			ops = append(ops, op)
+		}
+		if kh == 0 {
+			ops = append(ops, genesis(2)...)
 		}
 		hdata, _ := json.Marshal(ops)
 		hfile := filepath.Join(cf.out, fmt.Sprintf("hist_%d.json", kh))
@@ -579,13 +613,13 @@ func killRun(ctx context.Context, self, hfile string, ops []*Op, n int, fx *Fixt
 					}
 					switch op.Kind {
 					case KAttest, KAttests:
-						rec := post.Att[id]
-						if rec.Tgt < int64(op.Atts[i].Tgt.Epoch) || rec.Src < int64(op.Atts[i].Src.Epoch) {
-							res.fail = append(res.fail, fmt.Sprintf("kill at hook point %d (request %d, sites %v): attestation %d->%d of key#%d was signed but the durable record after restart is %+v", n, j, l.sitesFor[j], op.Atts[i].Src.Epoch, op.Atts[i].Tgt.Epoch, id, rec))
+						rec, present := post.Att[id]
+						if !present || rec.Tgt < int64(op.Atts[i].Tgt.Epoch) || rec.Src < int64(op.Atts[i].Src.Epoch) {
+							res.fail = append(res.fail, fmt.Sprintf("kill at hook point %d (request %d, sites %v): attestation %d->%d of key#%d was signed but the durable record after restart is %+v (present: %v)", n, j, l.sitesFor[j], op.Atts[i].Src.Epoch, op.Atts[i].Tgt.Epoch, id, rec, present))
 						}
 					case KPropose:
-						if post.Prop[id] < int64(op.Props[i].Slot) {
-							res.fail = append(res.fail, fmt.Sprintf("kill at hook point %d (request %d, sites %v): proposal slot %d of key#%d was signed but the durable slot after restart is %d", n, j, l.sitesFor[j], op.Props[i].Slot, id, post.Prop[id]))
+						if slot, present := post.Prop[id]; !present || slot < int64(op.Props[i].Slot) {
+							res.fail = append(res.fail, fmt.Sprintf("kill at hook point %d (request %d, sites %v): proposal slot %d of key#%d was signed but the durable slot after restart is %d (present: %v)", n, j, l.sitesFor[j], op.Props[i].Slot, id, slot, present))
 						}
 					}
 				}
